@@ -4,6 +4,8 @@ import (
 	"fmt"
 
 	"ssvharness/internal/common"
+
+	"github.com/database64128/shadowsocks-go/ss2022"
 )
 
 // Generator: a structurally random, VALID base configuration whose numbers sit on the accepted side
@@ -20,7 +22,10 @@ var (
 	okCap        = []int{0, 64, 65, 1024, 4096}
 	okFS         = []uint64{0, 0, 1, 2, 255, 256, 257, 1024, 1 << 20}
 	hugeFS       = []uint64{1<<20 + 1, 1 << 32, 1 << 63, 1<<63 - 63, ^uint64(0) - 63, ^uint64(0) - 64, ^uint64(0)}
-	okNatSS      = []int64{0, 60 * sec, 61 * sec, 300 * sec, 3600 * sec, 60*sec + 1}
+	// boundaries of the ss2022 NAT timeout follow the code's replay window (the oracle keeps the documented 60 s)
+	win          = int64(ss2022.ReplayWindowDuration)
+	okNatSS      = []int64{0, win, win + sec, 300 * sec, 3600 * sec, win + 1}
+	okNatSecSS   = []int{0, int((win + sec - 1) / sec), int((win+sec-1)/sec) + 1, 300}
 	okNatAny     = []int64{0, 1 * sec, 59 * sec, 60 * sec, 61 * sec, 300 * sec}
 	padNames     = []string{"", "PadPlainDNS", "PadAll", "NoPadding"}
 	rejNames     = []string{"", "JustClose", "ForceReset", "CloseWriteDrain", "ReplyWithGibberish"}
@@ -97,7 +102,7 @@ func genServer(r *common.Rng, name string) ServerC {
 			s.USB = common.Pick(r, okBatch)
 			s.UCC = common.Pick(r, okCap)
 			if ss {
-				s.NatSec = common.Pick(r, []int{0, 60, 61, 300})
+				s.NatSec = common.Pick(r, okNatSecSS)
 			} else {
 				s.NatSec = common.Pick(r, []int{0, 1, 59, 60, 300})
 			}
@@ -410,8 +415,8 @@ var faults = []fault{
 	}},
 	{"nat-ss", func(r *common.Rng, c *ConfigC) bool {
 		return withUL(r, c, ssServer,
-			func(u *ULc) { u.Nat = common.Pick(r, []int64{59 * sec, 60*sec - 1, 1, -sec, 30 * sec}) },
-			func(s *ServerC) { s.NatSec = common.Pick(r, []int{59, 1, -1, 30}) })
+			func(u *ULc) { u.Nat = common.Pick(r, []int64{59 * sec, win - sec, win - 1, 1, -sec, 30 * sec}) },
+			func(s *ServerC) { s.NatSec = common.Pick(r, []int{59, int((win - 1) / sec), 1, -1, 30}) })
 	}},
 	{"nat-any-negative", func(r *common.Rng, c *ConfigC) bool {
 		return withUL(r, c, anyServer, func(u *ULc) { u.Nat = -sec }, func(s *ServerC) { s.NatSec = -1 })
